@@ -464,7 +464,8 @@ func keyKind(k qkey) string {
 }
 
 func run(c *vf.Ctx) {
-	c.Rule("every known_hosts file of 1..2 lines over the 43-line alphabet, of 3 lines over its 30 main lines (thorough: all 43), and (thorough) of 4 lines over its 23 core lines; alphabet: (plain, list, [host]:port, '*' and '?' wildcards, negations, hashed, @cert-authority, @revoked, comment, blank, whitespace variants, unusable lines) x every query of the query set (6 hosts x 3 ports with and without host name, remote address known/unknown) x 8 keys (3 listed keys, a fresh key, certificates signed by each listed key and by an unlisted CA); a file is non-trivial (and counted by its line indices) when its queries produce at least two different kinds of answer")
+	c.Rule("every known_hosts file of 1..2 lines over the 43-line alphabet, of 3 lines over its 30 main lines (thorough: all 43), and (thorough) of 4 lines over its 23 core lines; alphabet: (plain, list, [host]:port, '*' and '?' wildcards, negations, hashed, @cert-authority, @revoked, comment, blank, whitespace variants, unusable lines) x every query of the query set (6 hosts x 3 ports with and without host name, remote address known/unknown) x 8 keys (3 listed keys, a fresh key, certificates signed by each listed key and by an unlisted CA); a file is non-trivial (and counted by its line indices) when its queries produce at least two different kinds of answer; " +
+		"H (hardening): files of 30/110/450/700 [thorough + 37..41, 75, 150, 2500] host lines with DISTINCT ed25519 keys (5 KB .. 128 KB, i.e. 1x..30x the line reader's buffer) preceded by an @revoked ed25519 key and an ed25519 @cert-authority, interleaved rsa/ecdsa lines, queried for the first, second, third, middle and last two hosts by name and by address x their own keys, each other's keys, a fresh key, the revoked key and a certificate; one line of exactly 4095..4098, 8191..8194, 16383..16386, 32767..32770 bytes (and 65533..65537: New may refuse, recorded) between two ed25519 lines, host last in its list / after a negation; New(file1, file2) for every ordered pair of one-line files over the 23 core lines and New(f1, f2, f3) over an 11-line sub-alphabet (line numbers per file, file names in KeyError/RevokedError), the error value overwritten by the caller before asking again and earlier KeyErrors unchanged by later queries; 15 further host-list shapes (empty list elements, 300 patterns with the hit / the veto at the end, several ports of one host, '**', '?', '??', bracketed port 22) alone and with 3 other lines in both orders")
 	c.Assume("keys are fixed test keys; only the salts of hashed entries depend on the seed")
 	c.Assume("certificates are queried with a host name only (CertChecker.CheckHostKey consults IsHostAuthority with the address argument); certificates carry no principals and never expire")
 	c.Assume("where the property text admits several readings (a plain key equal to a key on a matching @cert-authority line; an @revoked line whose patterns do not match the host; an unbracketed wildcard pattern that, as a whole-string OpenSSH pattern, also matches \"[host]:port\") an answer is accepted when it agrees with one consistent reading; the outcome tally says which one the code follows")
